@@ -85,6 +85,15 @@ def run(ctx) -> None:
                 if f == "sorted":
                     rev = [kw for kw in it.keywords if kw.arg == "reverse"]
                     rtl = bool(rev) and isinstance(rev[0].value, ast.Constant) and rev[0].value.value is True
+                    key = [kw.value for kw in it.keywords if kw.arg == "key"]
+                    if key:
+                        # a key that looks at the line number only keeps matches of one line in match order (stable sort)
+                        k = key[0]
+                        uses_span = isinstance(k, ast.Lambda) and any(
+                            (isinstance(x, ast.Subscript) and isinstance(x.slice, ast.Constant) and x.slice.value == 1) or
+                            (isinstance(x, ast.Subscript) and isinstance(x.slice, ast.Slice)) or
+                            (isinstance(x, ast.Attribute) and x.attr == "span") for x in ast.walk(k.body)) or (isinstance(k, ast.Lambda) and unparse(k.body) == k.args.args[0].arg)
+                        rtl = rtl and uses_span
                 elif f == "reversed":
                     rtl = True
             shifted = any(isinstance(n, ast.AugAssign) for n in ast.walk(loops[-1]))
